@@ -53,7 +53,7 @@ IMPLEMENTED = [l.strip() for l in open(os.path.join(V, "implemented.txt")) if l.
 
 m = {
  "version": 1,
- "setup_cmd": "cd /verif/harness && CARGO_NET_OFFLINE=true RUSTFLAGS='--cfg fastcgi_server_verif' cargo build --offline --profile monitor",
+ "setup_cmd": "cd /verif/harness && CARGO_NET_OFFLINE=true RUSTFLAGS='--cfg fastcgi_server_verif' cargo build --offline --profile monitor && CARGO_NET_OFFLINE=true RUSTFLAGS='--cfg fastcgi_server_verif' cargo build --offline --release",
  "hooks": {
   "guard": "--cfg fastcgi_server_verif",
   "enable": "RUSTFLAGS='--cfg fastcgi_server_verif' (set by ./check for every build of /verif/harness, which path-depends on /repo)",
